@@ -20,6 +20,29 @@ CLAIMED = {
     ),
 }
 
+CLAIMED["C08"] = (
+    "round-trip oracle over grammar-generated documents (Hypothesis byte strings decoded by a grammar-"
+    "directed generator, 3 layouts each) + bounded-exhaustive enumeration of short strings in quoted/"
+    "block/raw form",
+    "parse(text) is compared with the AST built programmatically from the generated tree, then "
+    "print->parse must give the same tree and print must be a fixed point; programmatic trees and every "
+    "embedded value/type/coordinate go through the same laws; all strings <= 4/5 over a 12-symbol "
+    "dangerous alphabet are enumerated as quoted, block and raw block-string text.",
+    "Trusts the structural signature (dataclass reflection, loc ignored) and R1's BlockStringValue for "
+    "expected block values; documents are parsed with the experimental flags their syntax needs.",
+    "DESIGN.md 3/C08",
+)
+CLAIMED["C09"] = (
+    "differential against a reference tokenizer written from the lexical grammar (bounded-exhaustive over "
+    "all strings <= 5/6 from a 16-symbol alphabet + Hypothesis token soup) and metamorphic relayout/strip/"
+    "token-limit laws on grammar-generated documents",
+    "Implementation tokens (kind, span, cooked value, comments included) must equal the reference's on every "
+    "enumerated string, accept/reject must agree, spans must be ordered with ignored-only gaps; generated "
+    "documents must parse to the same AST under 3 drawn layouts, the minimal layout and "
+    "strip_ignored_characters (idempotent), and max_tokens=k must accept iff k >= reference token count.",
+    "Trusts vkit/ref/lex.py (regular expressions + the spec's BlockStringValue) as the lexical grammar.",
+    "DESIGN.md 3/C09",
+)
 PENDING_REASON = (
     "check under construction in this session (DESIGN.md section 3 has its design); it is not claimed "
     "until it has run quietly on the unchanged tree at several seeds"
